@@ -394,9 +394,16 @@ func (w *World) stopNode(i int) {
 		n.Log.stopping = true
 	}
 	n.cancel()
-	n.Hippo.Close()
-	n.Flash.Close()
-	n.Book.VerifClose()
+	// A crash waits for nobody, but the stores are plain memory of this process: closing them under a
+	// truncation that is still writing its backup makes badger walk freed memory and takes the whole worker
+	// down. The node's tasks get a simulated minute to see their cancelled context, then the stores go.
+	hippo, flash, book := n.Hippo, n.Flash, n.Book
+	simrt.GoNamed(fmt.Sprintf("n%d:close-stores", i), func() {
+		simrt.SleepFor(time.Minute)
+		hippo.Close()
+		flash.Close()
+		book.VerifClose()
+	})
 }
 
 // addNode appends one more node (a late joiner) to the world.
